@@ -143,10 +143,8 @@ def _chk_round_step(out):
     return res
 
 
-for _i in (2, 1):
-    for _ttm in (False, True):
-        scn(name=f"round_tt.step:i={_i},{'ttm' if _ttm else 'tt'}", func="_decomposition.round_tt", props=("C02",), args=None,
-            driver=_drv_round_step(_i, _ttm), check=_chk_round_step, hooks=factor_hooks(), strict_sizes=False, min_returns=1)
+# (the per-iteration scenarios of round_tt were superseded by the evaluation of the whole function at orders 2-4 further down, which also
+# covers sweeps written as while loops; the helpers above are kept for the permute exchange)
 
 
 # --------------------------------------------------------------------------- permute: one exchange of neighbouring cores
@@ -164,19 +162,32 @@ def _adjacent_store(s, iv):
 
 
 def _swap_branch(model):
+    """(function, position loop, statements of one exchange): the innermost statement list inside a `for <i> in ...` loop that stores entries
+    i and i+1 of two lists (the index list and the core list) - the body of `if <inversion>:` or, with a guard clause `if not <inversion>:
+    continue`, the loop body itself"""
     f = model.func("_extras.permute")
+    best = None
     for lp in ast.walk(f.node):
-        if isinstance(lp, ast.For) and isinstance(lp.target, ast.Name):
-            for s in lp.body:
-                if isinstance(s, ast.If) and len(_adjacent_store(s.body, lp.target.id)) >= 2:
-                    return f, lp, s
-    raise Unmodelled("the exchange branch of permute (an `if` storing entries i and i+1 of the index list and of the core list) was not found")
+        if not (isinstance(lp, ast.For) and isinstance(lp.target, ast.Name)):
+            continue
+        blocks = [lp.body]
+        for n in ast.walk(lp):
+            if isinstance(n, ast.If):
+                blocks += [n.body, n.orelse]
+        for blk in blocks:
+            if blk and len(_adjacent_store(blk, lp.target.id)) >= 2:
+                size = sum(1 for st in blk for _ in ast.walk(st))
+                if best is None or size < best[0]:
+                    best = (size, lp, blk)
+    if best is None:
+        raise Unmodelled("the exchange of permute (statements storing entries i and i+1 of the index list and of the core list) was not found")
+    return f, best[1], best[2]
 
 
 def _drv_swap(i, ttm):
     def drv(it, model):
-        f, lp, br = _swap_branch(model)
-        fn, params = step_function(model, f, br.body, [], "swap_step")
+        f, lp, stmts = _swap_branch(model)
+        fn, params = step_function(model, f, stmts, [], "swap_step")
         d = 3
         cores, ranks, modes = _train(it, d, ttm)
         cl, rl = VList(list(cores)), VList([VInt(r) for r in ranks])
@@ -189,11 +200,14 @@ def _drv_swap(i, ttm):
                 cname, rname = n.targets[0].elts[0].id, n.targets[0].elts[1].id
         if cname is None:
             raise Unmodelled("permute: the orthogonalised core list (`cores, R = rl_orthogonal(...)`) was not found")
-        ints = _adjacent_store(br.body, lp.target.id) - {cname}
+        ints = _adjacent_store(stmts, lp.target.id) - {cname}
         vals = {lp.target.id: VInt(P.const(i)), cname: cl, rname: rl, fp[0]: VObj("operand", {"is_ttm": VBool(ttm)}),
                 "eps": VScalar(net.Coef.sym("eps"))}
         for nm in ints:
             vals[nm] = VList([VInt(P.const(j)) for j in range(d)])
+        if len(fp) > 1:
+            # the requested order: every neighbouring pair of the current order is an inversion (the guard of the exchange is taken)
+            vals.setdefault(fp[1], VList([VInt(P.const(j)) for j in reversed(range(d))]))
         from ..rules import order_names
         for o in order_names(f.node):
             vals.setdefault(o, VInt(P.const(d)))
@@ -236,3 +250,141 @@ for _i in (0, 1):
     for _ttm in (False, True):
         scn(name=f"permute.swap:i={_i},{'ttm' if _ttm else 'tt'}", func="_extras.permute", props=("C10",), args=None,
             driver=_drv_swap(_i, _ttm), check=_chk_swap, hooks=factor_hooks(), strict_sizes=False, min_returns=1)
+
+
+# --------------------------------------------------------------------------- TT.norm: the QR branch (no autograd tracking), orders 1-3
+
+def _chk_norm_qr(d, squared):
+    def check(out):
+        v = out.value
+        if not isinstance(v, VScalar):
+            return [("result", False, f"norm() returns a {type(v).__name__} on the QR branch")]
+        syms = dict(v.coef.syms)
+        norms = [s for s in syms if s.startswith("norm(")]
+        if len(norms) != 1 or len(syms) != 1 or v.coef.c != 1:
+            return [("result", False, f"norm() on the QR branch is not a single Frobenius norm (value {v.coef.show()[:160]})")]
+        s = norms[0]
+        want_pow = 2 if squared else 1
+        res = [("power", syms[s] == want_pow, "squared when requested" if syms[s] == want_pow else
+                f"norm(squared={squared}) returns the norm to the power {syms[s]}")]
+        cores_ok = all(f"x@{k}" in s for k in range(d))
+        carried = d == 1 or "qrR[" in s
+        no_q = "qrQ[" not in s
+        ok = cores_ok and carried and no_q
+        res.append(("carried-core", ok, "the norm of the last core with every triangular factor carried into it" if ok else
+                    "after the QR sweep the returned value is not the norm of the last core with the triangular factors of all cores to its left carried into "
+                    "it (a factor is dropped, an orthogonal factor is measured, or the wrong core is taken as the next one): ||x|| is wrong"))
+        return res
+    return check
+
+
+for _d in (1, 2, 3):
+    for _ttm in (False, True):
+        for _sq in (True, False):
+            from .scenarios import make_tt
+            scn(name=f"norm:qr.d{_d}.{'ttm' if _ttm else 'tt'}.{'squared' if _sq else 'plain'}", func="_tt_base.TT.norm", props=("C07", "C15"),
+                presets={"autograd tracking": False}, hooks=factor_hooks(),
+                args=(lambda d, m, q: (lambda it: (make_tt(it, "x", m, d), [], {"squared": VBool(q)})))(_d, _ttm, _sq),
+                check=_chk_norm_qr(_d, _sq))
+
+
+# --------------------------------------------------------------------------- TT.norm: which branch for which tracking state (C15)
+
+def _chk_norm_switch(tracked):
+    def check(out):
+        v = out.value
+        txt = v.coef.show() if isinstance(v, VScalar) else (v.dense().canon() if isinstance(v, VTensor) else type(v).__name__)
+        uses_qr = "qrR[" in txt or "qrQ[" in txt or (isinstance(v, VScalar) and any(s.startswith("norm(") for s, _ in v.coef.syms))
+        if tracked:
+            ok = not uses_qr
+            return [("tracked", ok, "a tracked core (leaf or intermediate) selects the differentiable Gram chain" if ok else
+                     f"core {tracked} is tracked by autograd and norm() still takes the QR sweep: the value is not differentiated through the Gram chain - "
+                     "gradients of that input are wrong or lost")]
+        return [("untracked", True, "no core is tracked: either branch gives the norm")]
+    return check
+
+
+# the tracking state is fixed by the scenario (one core tracked as a leaf / as an intermediate result, the others not): whatever the code
+# asks about the cores is answered accordingly, and what it does not ask it cannot know
+for _ttm in (False, True):
+    from .scenarios import make_tt
+    for _who, _how in (("x@0", "requires_grad"), ("x@1", "requires_grad"), ("x@0", "grad_fn"), ("x@1", "grad_fn"), ("x@2", "grad_fn"), (None, None)):
+        _pre = {f"{_how} of {_who}": True, "autograd tracking": False} if _who else {"autograd tracking": False}
+        scn(name=f"norm:switch.d3.{'ttm' if _ttm else 'tt'}.{_how or 'none'}({_who or '-'})", func="_tt_base.TT.norm", props=("C15",), hooks=factor_hooks(),
+            presets=_pre, args=(lambda m: (lambda it: (make_tt(it, "x", m, 3), [], {})))(_ttm),
+            check=_chk_norm_switch(f"{_who} ({_how})" if _who else None))
+
+
+# --------------------------------------------------------------------------- round_tt as a whole, concrete orders (C02)
+
+def _drv_round(d, ttm):
+    def drv(it, model):
+        f = model.func("_decomposition.round_tt")
+        cores, ranks, modes = _train(it, d, ttm)
+        cl, rl = VList(list(cores)), VList([VInt(r) for r in ranks])
+        for j in range(d + 1):
+            it.facts.lb[f"rmax{j}"] = 1
+        args = [cl, rl, VScalar(net.Coef.sym("eps")), VList([VInt(_sz(f"rmax{j}")) for j in range(d + 1)]), VBool(ttm)]
+        res = it.call_function(f, args[:len(f.params())], {})
+        return VTuple((res, VObj("_state", {"given": cl, "d": VInt(P.const(d)), "ranks": VList([VInt(r) for r in ranks]),
+                                            "modes": VList([VList([VInt(x) for x in md]) for md in modes])})))
+    return drv
+
+
+def _chk_round(out):
+    v = out.value
+    if not (isinstance(v, VTuple) and len(v.items) == 2 and isinstance(v.items[1], VObj) and isinstance(v.items[0], VTuple) and len(v.items[0].items) == 2):
+        return [("result", False, "round_tt does not return (cores, ranks)")]
+    st = v.items[1].attrs
+    d = int(st["d"].p.const_value())
+    modes = [[x.p for x in md.items] for md in st["modes"].items]
+    cores, R = v.items[0].items
+    if not (isinstance(cores, VList) and len(cores.items) == d and all(isinstance(c, VTensor) for c in cores.items) and isinstance(R, VList) and len(R.items) == d + 1):
+        return [("result", False, "round_tt does not return d cores and d+1 ranks")]
+    txt = [c.dense().canon() for c in cores.items]
+    res = []
+    ok1 = all("svdV[" in txt[k] for k in range(1, d))
+    res.append(("truncated-factors", ok1, "every core but the first is a kept right singular factor" if ok1 else
+                "a core to the right of the first one is not the kept right singular factor of its bond: that bond was not truncated in an orthogonal gauge"))
+    # the first truncation (last bond) must see the whole tensor: its matrix carries the triangular factors of the left-to-right sweep
+    last = txt[d - 1]
+    ok2 = "qrR[" in last and all(f"c{k}" in last for k in range(d))
+    res.append(("orthogonalised-first", ok2, "the first truncated matrix carries the R factors of a left-to-right orthogonalisation of all cores" if ok2 else
+                "the matrix truncated at the last bond does not carry the triangular factors of a left-to-right orthogonalisation (of every core): the SVD of a "
+                "non-orthogonalised core does not measure the error of the whole tensor, so eps is not met for badly conditioned cores"))
+    ok3 = "svdU[" not in last.split("svdV[", 1)[0] and (d < 3 or "svdU[" in txt[1])
+    res.append(("right-to-left", ok3, "the truncation runs from the last bond to the first, carrying U S to the left" if ok3 else
+                "the truncating sweep does not run from the last bond towards the first with the kept U S carried into the left neighbour"))
+    ok4 = all(s in txt[0] for s in ("svdU[", "svdS[")) if d > 1 else True
+    res.append(("remainder", ok4, "the first core holds the carried remainder" if ok4 else "the first core does not receive the carried U S: the product of the cores is not the tensor"))
+    rr = [x.p if isinstance(x, VInt) else None for x in R.items]
+    oks = None not in rr
+    why = ""
+    if oks:
+        for k, c in enumerate(cores.items):
+            a, why = _shape_is(out, c, [rr[k]] + modes[k] + [rr[k + 1]], f"core {k}")
+            if not a:
+                oks = False
+                break
+    res.append(("ranks", bool(oks), "the returned rank list describes the returned cores" if oks else f"returned ranks and cores disagree: {why}"))
+    # every interior rank is capped by ITS bond's entry of the cap list: it is that entry, or a selected rank that the path found smaller
+    okc, whyc = True, ""
+    for i in range(1, d):
+        if rr[i] is None:
+            continue
+        ri = repr(out.facts.norm(rr[i]))
+        if ri == f"rmax{i}":
+            continue
+        smaller = any((k == f"{ri} < rmax{i}" and v) or (k == f"rmax{i} < {ri}" and not v) for k, v in out.decisions)
+        if not (ri.startswith("r_kept") and smaller):
+            okc, whyc = False, f"rank {i} is {ri}"
+            break
+    res.append(("cap", okc, "each interior rank is the selected rank or its own bond's cap, whichever is smaller" if okc else
+                f"on this path {whyc}, which is not min(selected rank, cap of bond {i}): a rank may exceed the cap given for its bond (per-bond rmax lists)"))
+    return res
+
+
+for _d in (2, 3, 4):
+    for _ttm in (False, True):
+        scn(name=f"round_tt:d{_d}.{'ttm' if _ttm else 'tt'}", func="_decomposition.round_tt", props=("C02",), args=None,
+            driver=_drv_round(_d, _ttm), check=_chk_round, hooks=factor_hooks(), tier="thorough" if _d == 4 else "quick")
